@@ -1,2 +1,183 @@
-(* C19 - stub, replaced below *)
-From PF Require Import Model.Mixup.
+(* C19 — feature mixup swaps whole features with one partner row, mixes targets convexly.
+   Statements only; proofs live in Proofs/MixupProofs.v.  The model (Model/Mixup.v) mirrors
+   excelformer.py:feature_mixup with its three random draws (rates, perm, unif : draws) as explicit inputs, so every
+   theorem below holds FOR EVERY value of the draws (all seeds), every batch shape [B>=1, F>=1, D], every target,
+   every beta (beta only shapes the distribution of `rates`) and every mutual-information vector.
+
+   Reading aid:  ent t i j k = Some v   entry (i,j,k) of a rank-3 tensor exists and is v
+                 perm dr                  shuffled_idx: row i's partner is  nth_error (perm dr) i
+                 draw_mask (rates dr) (unif dr)   the hard mask  rand < shuffle_rates   ([B,F] or [B,D])
+                 mixup_lams mt mi dr      lam per row as computed in mode mt
+                 cvx lam a b = lam * a + (1 - lam) * b                                                       *)
+From Coq Require Import List ZArith QArith Bool Arith.
+From PF Require Import Lib.ListX Model.Mixup Proofs.MixupProofs.
+Import ListNotations.
+Open Scope Q_scope.
+
+(* 1. Every entry of a mixed row is the entry at the same position (j,k) of the row itself or of its ONE partner
+      row perm[i], a row of the batch. *)
+Theorem mixed_entry_is_own_or_partner :
+  forall x y nc mt mi dr xm ym,
+    feature_mixup x y nc mt mi dr = Some (xm, ym) ->
+    forall i j k v, ent xm i j k = Some v ->
+    exists p, nth_error (perm dr) i = Some p /\ (p < length x)%nat /\
+              (ent x i j k = Some v \/ ent x p j k = Some v).
+Proof. exact mixup_entry_own_or_partner. Qed.
+Print Assumptions mixed_entry_is_own_or_partner.
+
+(* 1b. ... and which of the two is decided by the mask entry of the mode: (row, column) in feature mode,
+       (row, channel) in hidden mode, constant "own" when off.  true = keep the own entry. *)
+Theorem mixed_entry_follows_mask :
+  forall x y nc mt mi dr xm ym,
+    feature_mixup x y nc mt mi dr = Some (xm, ym) ->
+    forall i j k v, ent xm i j k = Some v ->
+    exists p m, nth_error (perm dr) i = Some p /\ (p < length x)%nat /\
+                mask_at mt dr i j k = Some m /\ ent x (if m then i else p) j k = Some v.
+Proof. exact mixup_entry. Qed.
+Print Assumptions mixed_entry_follows_mask.
+
+(* 1c. The mixed tensor has exactly the shape (index domain) of the input. *)
+Theorem mixed_tensor_same_shape :
+  forall x y nc mt mi dr xm ym,
+    feature_mixup x y nc mt mi dr = Some (xm, ym) ->
+    forall i j k, ent xm i j k <> None <-> ent x i j k <> None.
+Proof. exact mixup_same_shape. Qed.
+Print Assumptions mixed_tensor_same_shape.
+
+(* 2. Granularity.  Feature mode: the whole embedding of column j of row i comes from one source row (the row
+      itself or its partner).  Hidden mode: the whole channel k of row i (across all columns) does. *)
+Theorem feature_mode_swaps_whole_columns :
+  forall x y nc mi dr xm ym,
+    feature_mixup x y nc MixFeature mi dr = Some (xm, ym) ->
+    forall i j, exists src, (src = i \/ nth_error (perm dr) i = Some src) /\
+      forall k v, ent xm i j k = Some v -> ent x src j k = Some v.
+Proof. exact mixup_feature_whole_column. Qed.
+Print Assumptions feature_mode_swaps_whole_columns.
+
+Theorem hidden_mode_swaps_whole_channels :
+  forall x y nc mi dr xm ym,
+    feature_mixup x y nc MixHidden mi dr = Some (xm, ym) ->
+    forall i k, exists src, (src = i \/ nth_error (perm dr) i = Some src) /\
+      forall j v, ent xm i j k = Some v -> ent x src j k = Some v.
+Proof. exact mixup_hidden_whole_channel. Qed.
+Print Assumptions hidden_mode_swaps_whole_channels.
+
+(* 3. Class targets (num_classes > 1): row i of the returned target is
+        lam_i * onehot(y_i) + (1 - lam_i) * onehot(y_p)      with the SAME partner p = perm[i] as the features. *)
+Theorem class_target_is_convex_mix_with_same_partner :
+  forall x y nc mt mi dr xm ym,
+    feature_mixup x y nc mt mi dr = Some (xm, ym) -> nc <> 1%nat ->
+    exists ys rows, y = YIdx ys /\ ym = YMClass rows /\ length rows = length x /\
+      forall i row, nth_error rows i = Some row ->
+        exists lam p yi yp,
+          nth_error (mixup_lams mt mi dr) i = Some lam /\ nth_error (perm dr) i = Some p /\
+          nth_error ys i = Some yi /\ nth_error ys p = Some yp /\ (yi < nc)%nat /\ (yp < nc)%nat /\
+          row = map2 (cvx lam) (onehot_row nc yi) (onehot_row nc yp).
+Proof. exact mixup_class_target. Qed.
+Print Assumptions class_target_is_convex_mix_with_same_partner.
+
+(* 3b. Scalar targets (num_classes = 1): lam_i * y_i + (1 - lam_i) * y_p, same partner. *)
+Theorem scalar_target_is_convex_mix_with_same_partner :
+  forall x y mt mi dr xm ym,
+    feature_mixup x y 1 mt mi dr = Some (xm, ym) ->
+    exists vals, ym = YMScalar vals /\ length vals = length x /\
+      forall i v, nth_error vals i = Some v ->
+        exists lam p yi yp,
+          nth_error (mixup_lams mt mi dr) i = Some lam /\ nth_error (perm dr) i = Some p /\
+          nth_error (scalar_values y) i = Some yi /\ nth_error (scalar_values y) p = Some yp /\
+          v = cvx lam yi yp.
+Proof. exact mixup_scalar_target. Qed.
+Print Assumptions scalar_target_is_convex_mix_with_same_partner.
+
+(* 4. lam is in [0,1] in every mode (beta rates in [0,1]; MI scores non-negative with positive sum — positivity of
+      the sum is implied by the function returning at all) ... *)
+Theorem lambda_in_unit_interval :
+  forall mt mi dr,
+    Forall (fun r => 0 <= r <= 1) (rates dr) ->
+    (mt = MixFeature -> exists m, mi = Some m /\ Forall (fun v => 0 <= v) m /\ 0 < qsum m) ->
+    Forall (fun lam => 0 <= lam <= 1) (mixup_lams mt mi dr).
+Proof. exact mixup_lams_unit. Qed.
+Print Assumptions lambda_in_unit_interval.
+
+(* ... hence class targets are non-negative and sum to one, *)
+Theorem class_targets_are_distributions :
+  forall x y nc mt mi dr xm rows,
+    feature_mixup x y nc mt mi dr = Some (xm, YMClass rows) -> nc <> 1%nat ->
+    Forall (fun r => 0 <= r <= 1) (rates dr) ->
+    (mt = MixFeature -> exists m, mi = Some m /\ Forall (fun v => 0 <= v) m) ->
+    forall row, In row rows -> Forall (fun v => 0 <= v) row /\ qsum row == 1.
+Proof. exact mixup_class_distribution. Qed.
+Print Assumptions class_targets_are_distributions.
+
+(* ... and a scalar target lies between the own and the partner's value. *)
+Theorem convex_mix_between :
+  forall lam a b, 0 <= lam <= 1 ->
+    (a <= b -> a <= cvx lam a b <= b) /\ (b <= a -> b <= cvx lam a b <= a).
+Proof. intros lam a b H. split; [apply cvx_between|apply cvx_between']; exact H. Qed.
+Print Assumptions convex_mix_between.
+
+(* 5. Feature mode: lam_i = (mutual-information mass of the columns row i keeps) / (total mass). *)
+Theorem feature_mode_lambda_is_mi_share :
+  forall x y nc mi dr xm ym,
+    feature_mixup x y nc MixFeature (Some mi) dr = Some (xm, ym) ->
+    0 < qsum mi /\
+    forall i lam, nth_error (mixup_lams MixFeature (Some mi) dr) i = Some lam ->
+      exists mrow, nth_error (draw_mask (rates dr) (unif dr)) i = Some mrow /\
+                   lam == kept_mass mi mrow / qsum mi.
+Proof. exact mixup_feature_lambda. Qed.
+Print Assumptions feature_mode_lambda_is_mi_share.
+
+(* 6. Mixup off: features unchanged, plain one-hot labels / plain scalars. *)
+Theorem off_features_unchanged :
+  forall x y nc mi dr xm ym, feature_mixup x y nc MixNone mi dr = Some (xm, ym) -> xm = x.
+Proof. exact mixup_off_features. Qed.
+Print Assumptions off_features_unchanged.
+
+Theorem off_class_targets_are_one_hot :
+  forall x y nc mi dr xm ym,
+    feature_mixup x y nc MixNone mi dr = Some (xm, ym) -> nc <> 1%nat ->
+    exists ys rows, y = YIdx ys /\ ym = YMClass rows /\ length rows = length x /\
+      forall i row, nth_error rows i = Some row ->
+        exists yi, nth_error ys i = Some yi /\ (yi < nc)%nat /\ Forall2 Qeq row (onehot_row nc yi).
+Proof. exact mixup_off_class_target. Qed.
+Print Assumptions off_class_targets_are_one_hot.
+
+Theorem off_scalar_targets_unchanged :
+  forall x y mi dr xm ym,
+    feature_mixup x y 1 MixNone mi dr = Some (xm, ym) ->
+    exists vals, ym = YMScalar vals /\ length vals = length x /\
+      forall i v, nth_error vals i = Some v ->
+        exists yi, nth_error (scalar_values y) i = Some yi /\ v == yi.
+Proof. exact mixup_off_scalar_target. Qed.
+Print Assumptions off_scalar_targets_unchanged.
+
+(* ---------------------------------------------------------------------------------------------------------
+   The hypotheses are satisfiable: concrete non-trivial runs (B=2, F=2, D=2), evaluated by vm_compute.
+   Feature mode, MI = [1;3], row 0 keeps column 0 only (lam = 1/4), row 1 keeps column 1 only (lam = 3/4). *)
+Definition ex_x : list (list (list Z)) := [[[1;2];[3;4]]; [[5;6];[7;8]]]%Z.
+Definition ex_dr : draws :=
+  {| rates := [1#2; 1#2]; perm := [1%nat; 0%nat]; unif := [[0; 1]; [1; 0]] |}.
+
+Example feature_mode_example :
+  mixup_agrees ex_x (YIdx [0%nat; 2%nat]) 3 MixFeature (Some [1; 3]) ex_dr 0
+    [[[1;2];[7;8]]; [[1;2];[7;8]]]%Z
+    (YMClass [[1#4; 0; 3#4]; [1#4; 0; 3#4]]) = true.
+Proof. vm_compute. reflexivity. Qed.
+
+(* hidden mode: row 0 keeps channel 0 and takes channel 1 from row 1; lam = rate *)
+Example hidden_mode_example :
+  mixup_agrees ex_x (YVal [2; -4]) 1 MixHidden None
+    {| rates := [1#4; 1#2]; perm := [1%nat; 0%nat]; unif := [[0; 1]; [1; 1]] |} 0
+    [[[1;6];[3;8]]; [[1;2];[3;4]]]%Z
+    (YMScalar [-5#2; -1]) = true.
+Proof. vm_compute. reflexivity. Qed.
+
+Example off_example :
+  mixup_agrees ex_x (YIdx [0%nat; 2%nat]) 3 MixNone None ex_dr 0 ex_x
+    (YMClass [[1; 0; 0]; [0; 0; 1]]) = true.
+Proof. vm_compute. reflexivity. Qed.
+
+(* a raise: class index outside [0, num_classes) *)
+Example out_of_range_class_raises :
+  feature_mixup ex_x (YIdx [0%nat; 3%nat]) 3 MixNone None ex_dr = None.
+Proof. vm_compute. reflexivity. Qed.
